@@ -257,13 +257,21 @@ impl<T: Qcow2IoOps> Qcow2Dev<T> {
         futures::future::join_all(f_vec).await;
 
         {
+            // drop every cluster lock before asking for the write lock of new
+            // cluster map, since someone may wait for the cluster lock with
+            // the map's read lock held. Each cluster is zeroed and marked
+            // so now, and nobody will zero it again
+            let keys: Vec<u64> = cluster_map
+                .into_iter()
+                .map(|(cls_key, locked_cls)| {
+                    drop(locked_cls);
+                    cls_key
+                })
+                .collect();
             let mut cls_map = self.new_cluster.write().await;
 
-            for (cls_key, _locked_cls) in cluster_map {
+            for cls_key in keys {
                 cls_map.remove(&cls_key);
-
-                // _locked_cls drops after this entry is removed from
-                // new cluster map
             }
         }
 
